@@ -13,11 +13,11 @@
     C01 and C02 both define json / outcome / run …: C01's names are used qualified here. *)
 From Coq Require Import List NArith ZArith Bool Lia.
 From ApiFu Require Import Base.Sexp Fut.Plan Fut.ExecSync Fut.Denote Fut.FutSpec.
-From ApiFu Require Exe.ExecData Exe.ExecSpec.
+From ApiFu Require ExeA.ArgData ExeA.ArgArgs ExeA.ArgSpec Val.Values.
 Import ListNotations.
 
-Module D := ExecData.
-Module X := ExecSpec.
+Module D := ArgData.
+Module X := ArgSpec.
 
 Section Bridge.
   Variable code : D.json -> Z.                     (* any coding of leaf values *)
@@ -58,10 +58,25 @@ Section Bridge.
         end
     end.
 
+  (** ExecuteField's argument step, as C01's reference does it ([s_with_args]): C05's
+      CoerceArgumentValues for the first field node; if it raises, the field fails (a [VBad]);
+      otherwise the resolver answers with the entry [field_key fieldName arguments] of the object
+      value's outcome table *)
+  Definition p_with_args (children : D.name -> planner) (ot : D.name) : D.name -> planner :=
+    fun fname t fields =>
+      match fields with
+      | [] => Some VBad
+      | f :: _ =>
+          match ArgArgs.coerce_field_args S Doc ot f with
+          | Values.Ok A => children (ArgArgs.field_key fname A) t fields
+          | _ => Some VBad
+          end
+      end.
+
   Definition p_selection_set (children : D.name -> planner) (ot : D.name) (sels : list D.selection) : vplan :=
     match X.s_collect S Doc E fuel ot sels with
     | None => VBad                                  (* out of fuel: the reference fails here *)
-    | Some groups => VObj (flat_map (p_entry children ot) groups)
+    | Some groups => VObj (flat_map (p_entry (p_with_args children ot) ot) groups)
     end.
 
   Definition plan_view (v : pview) : planner :=
